@@ -340,10 +340,19 @@ func (svr *Server) Close() error {
 	svcs := svr.svcs
 	svr.mu.Unlock()
 
+	// The services are stopped concurrently: the processor of one connection
+	// may be parked on the full outgoing buffer of another one whose peer has
+	// stopped reading, and only stopping that other one releases it.
+	var wg sync.WaitGroup
 	for _, svc := range svcs {
 		log.Tracef("Stopping service: %d", svc.id)
-		svc.stop()
+		wg.Add(1)
+		go func(svc *service) {
+			defer wg.Done()
+			svc.stop()
+		}(svc)
 	}
+	wg.Wait()
 
 	if svr.sessMgr != nil {
 		svr.sessMgr.Close()
